@@ -19,7 +19,7 @@
 (***************************************************************************)
 EXTENDS InitCmdContract, TLC, Json
 
-CONSTANTS Worlds,      \* set of [id, pkgs, gopkgs, cfgs, inits] records (scratch module + alphabets)
+CONSTANTS Worlds,      \* set of [id, pkgs, gopkgs, cfgs, inits, envs] records (scratch module + alphabets)
           IfacesOf,    \* package id -> set of interface names it declares (Go packages of the world)
           RejectedPkgs,\* package ids whose written file mockery's loader rejects   } known findings: yaml.v3 writes the key
           MangledPkgs, \* package ids that load back as a different string          } `<<` unquoted and mis-writes some block literals
@@ -28,6 +28,7 @@ CONSTANTS Worlds,      \* set of [id, pkgs, gopkgs, cfgs, inits] records (scratc
 
 VARIABLES world,       \* the world record chosen for this behaviour
           start,       \* kind of content at the target path before the first operation
+          env,         \* class of MOCKERY_* variables set while `init` runs (load and run use a clean environment)
           cfg,         \* class of the --config argument (see CfgClasses)
           content,     \* what is at the target path: [k |-> kind, p |-> package id or None]
           mocks,       \* Go packages whose mocks_test.go exists (written by Run)
@@ -36,8 +37,8 @@ VARIABLES world,       \* the world record chosen for this behaviour
           last,        \* the last completed operation with its outcome and the contract's verdict
           hist         \* all completed operations (observation; hidden by VIEW)
 
-vars == <<world, start, cfg, content, mocks, loaded, pc, pending, last, hist>>
-view == <<world, start, cfg, content, mocks, loaded, pc, pending>>
+vars == <<world, start, env, cfg, content, mocks, loaded, pc, pending, last, hist>>
+view == <<world, start, env, cfg, content, mocks, loaded, pc, pending>>
 
 \* --config classes.  "default": flag absent, init.go:47 falls back to ".mockery.yml" in the working
 \* directory and a later plain run finds it by search.  All others name the file explicitly.
@@ -55,6 +56,8 @@ Init ==
   /\ cfg \in world.cfgs
   /\ start \in world.inits
   /\ cfg = "missing" => start = "absent"      \* nothing can be below a directory that does not exist
+  /\ env \in world.envs
+  /\ env # "none" => start \in {"absent", "dangling"}   \* the environment can only matter when init writes
   /\ content = C(start, None)
   /\ mocks = {}
   /\ loaded = FALSE
@@ -72,12 +75,14 @@ InitOpen(p) ==
   /\ IF content.k # "absent" \/ ~ParentOK(cfg)
      THEN /\ Done([op |-> "init", pkg |-> p, ok |-> FALSE, after |-> "same",
                    allow |-> InitAllowed(Presence(content), ParentOK(cfg))])
-          /\ UNCHANGED <<world, start, cfg, content, mocks, loaded, pc, pending>>
+          /\ UNCHANGED <<world, start, env, cfg, content, mocks, loaded, pc, pending>>
      ELSE /\ content' = C("created", None)        \* an empty file exists from here on
           /\ pc' = "opened" /\ pending' = p
-          /\ UNCHANGED <<world, start, cfg, mocks, loaded, last, hist>>
+          /\ UNCHANGED <<world, start, env, cfg, mocks, loaded, last, hist>>
 
 \* init.go:54-71,81-88.  rootConf = defaults of NewDefaultKoanf + packages {p: {config: {all: true}}}.
+\* NewDefaultKoanf (config.go:89-110) holds the built-in defaults only: the MOCKERY_* environment is a layer of
+\* NewRootConfig (config.go:175-202), which init does not use, so `env` does not influence what is written.
 InitEncode ==
   /\ pc = "opened"
   /\ content' = C("init", pending)
@@ -85,7 +90,7 @@ InitEncode ==
   /\ pc' = "idle" /\ pending' = None
   /\ Done([op |-> "init", pkg |-> pending, ok |-> TRUE, after |-> "created",
            allow |-> InitAllowed("no", ParentOK(cfg))])
-  /\ UNCHANGED <<world, start, cfg, mocks>>
+  /\ UNCHANGED <<world, start, env, cfg, mocks>>
 
 (* ------------------------------------------------------------ showconfig *)
 \* Known deviations (findings C18-merge-key-package, C18-block-literal-package): yaml.v3 writes the key `<<`
@@ -104,7 +109,7 @@ Load ==
   /\ LET r == LoadImpl(content) IN
      /\ Done([op |-> "load", pkg |-> By(content), ok |-> r.ok, keys |-> r.keys, expect |-> LoadExpect(By(content))])
      /\ loaded' = IF TrackLoad /\ r.ok THEN TRUE ELSE loaded
-  /\ UNCHANGED <<world, start, cfg, content, mocks, pc, pending>>
+  /\ UNCHANGED <<world, start, env, cfg, content, mocks, pc, pending>>
 
 (* ------------------------------------------------------------- plain run *)
 IsGoPkg(p) == p \in world.gopkgs
@@ -125,7 +130,7 @@ Run ==
      /\ Done([op |-> "run", pkg |-> By(content), ok |-> r.ok, mocked |-> r.mocked,
               expect |-> RunExpect(By(content), IsGoPkg(content.p), Ifc(content.p), content.p \in mocks)])
      /\ mocks' = IF r.ok THEN mocks \cup {content.p} ELSE mocks
-  /\ UNCHANGED <<world, start, cfg, content, loaded, pc, pending>>
+  /\ UNCHANGED <<world, start, env, cfg, content, loaded, pc, pending>>
 
 Next ==
   \/ \E p \in world.pkgs : InitOpen(p)
@@ -151,7 +156,8 @@ ImplConforms == [][Len(hist') > Len(hist) => Conforms(last')]_vars
 ExistingNeverModified ==
   [][(content.k \notin {"absent", "created"}) => content' = content]_vars
 
-TypeOK == /\ cfg \in CfgClasses
+EnvClasses == {"none", "loglevel", "dir", "filename", "force", "all", "template", "config", "buildtags", "unknown", "several", "lower"}
+TypeOK == /\ cfg \in CfgClasses /\ env \in EnvClasses
           /\ content.k \in UserKinds \cup {"absent", "created", "init"}
           /\ pc \in {"idle", "opened"}
           /\ mocks \subseteq world.gopkgs
@@ -164,7 +170,7 @@ NeverRunMocks == ~(last.op = "run" /\ last.ok)
 -----------------------------------------------------------------------------
 (* Export: every generated transition that completes an operation is printed once, with the world, the
    --config class, the initial content and the history that leads to it. *)
-Case == [world |-> world.id, cfg |-> cfg, start |-> start, ops |-> hist]
+Case == [world |-> world.id, cfg |-> cfg, start |-> start, env |-> env, ops |-> hist]
 Emit == IF pc = "idle" /\ Len(hist) > 0 /\ TLCGet("config").mode = "bfs"
         THEN PrintT(<<"CASE", ToJson(Case)>>) ELSE TRUE
 =============================================================================
